@@ -121,6 +121,19 @@ CLAIMS = {
              "(bounded sweep only; the conditional machine is C08's); regex running time is not bounded by any contract.",
         technique="class-flow safety obligations (pyvc mode S) + VCs for the scope-stack invariant + structural termination obligations; native sweeps as bounded stand-in",
         design="3/C03"),
+    "C08": dict(
+        category="exploration",
+        text="Bounded stand-in (no proof): the conditional machine of preprocess_file is a 300-line regex-driven loop "
+             "body outside the VC generator's reach, so the real function is compared with an independent reference "
+             "preprocessor (ISO C 6.10.1) on every well-formed #if/#elif/#else/#endif skeleton up to 7 (thorough 9) "
+             "directives with all truth assignments, on seeded random skeletons with #ifdef/#define/#undef and real "
+             "conditions for five macro tables, on the index produced by the real parser, and on macro bodies with "
+             "special characters. Structural/finite obligations: `defined` rewriting is parenthesis-neutral, the skip test "
+             "dominates every index-building call in parse.",
+        note="Bounded, never counted as proved; redefinition semantics and rescanning order of macro expansion are not "
+             "decided; known finding: parameters substituted inside character literals of function-like macro bodies.",
+        technique="bounded comparison of the real function with a reference C preprocessor (labelled bounded); structural obligations",
+        design="3/C08"),
 }
 
 NOT_APPLICABLE = {
@@ -143,7 +156,7 @@ def main():
             "evidence_file": f"evidence/{pid}.json",
             "replay_cmd_template": f"./check {pid} --replay {{path}}",
             "engine": "pyvc",
-            "level_claimed": {"category": "proof", "text": c["text"], "design_ref": c["design"]},
+            "level_claimed": {"category": c.get("category", "proof"), "text": c["text"], "design_ref": c["design"]},
             "level_note": c["note"],
             "technique": c["technique"],
         })
